@@ -201,3 +201,51 @@ func verifLemmaZeroRefJSON() ([]byte, error) {
 	var r Ref
 	return r.MarshalJSON()
 }
+
+func verifLemmaItemsRoundTrip(data []byte) []byte {
+	var v Items
+	if err := v.UnmarshalJSON(data); err != nil {
+		return nil
+	}
+	out, err := v.MarshalJSON()
+	if err != nil {
+		return nil
+	}
+	return out
+}
+
+func verifLemmaParameterRoundTrip(data []byte) []byte {
+	var v Parameter
+	if err := v.UnmarshalJSON(data); err != nil {
+		return nil
+	}
+	out, err := v.MarshalJSON()
+	if err != nil {
+		return nil
+	}
+	return out
+}
+
+func verifLemmaResponseRoundTrip(data []byte) []byte {
+	var v Response
+	if err := v.UnmarshalJSON(data); err != nil {
+		return nil
+	}
+	out, err := v.MarshalJSON()
+	if err != nil {
+		return nil
+	}
+	return out
+}
+
+func verifLemmaPathItemRoundTrip(data []byte) []byte {
+	var v PathItem
+	if err := v.UnmarshalJSON(data); err != nil {
+		return nil
+	}
+	out, err := v.MarshalJSON()
+	if err != nil {
+		return nil
+	}
+	return out
+}
